@@ -369,6 +369,40 @@ inline void apply_tuning(const Tuning &t)
     for (int i = 0; i < 8; ++i) vf_tune[i] = t.v[i];
 }
 
+// --- incomplete-LU options -----------------------------------------------------
+struct IluOpts { int droprule = 0; double droptol = 1e-4, fillfactor = 10, filltol = 1e-2; norm_t norm = INF_NORM; milu_t milu = SILU; rowperm_t rowperm = NOROWPERM; };
+
+inline IluOpts gen_ilu_opts(Choice &c)
+{
+    IluOpts o;
+    static const int rules[] = {DROP_BASIC | DROP_AREA, NODROP, DROP_BASIC, DROP_BASIC | DROP_PROWS, DROP_BASIC | DROP_COLUMN, DROP_BASIC | DROP_AREA, DROP_BASIC | DROP_PROWS, NODROP};
+    unsigned b = c.u8();
+    o.droprule = rules[b % 8];
+    if (o.droprule != NODROP) { if (b & 8) o.droprule |= DROP_DYNAMIC; if ((b & 16) && (o.droprule & DROP_SECONDARY)) o.droprule |= DROP_INTERP; }
+    static const double tols[] = {1e-4, 0.0, 1e-8, 1e-2, 0.1, 0.5, 1e-3, 0.0};
+    o.droptol = tols[c.below(8)];
+    static const double ffs[] = {10, 1, 2, 3, 5, 20, 1.5, 10};
+    o.fillfactor = ffs[c.below(8)];
+    static const double fts[] = {1e-2, 1.0, 1e-4, 1e-8, 0.5, 1e-2, 1e-1, 1e-6};
+    o.filltol = fts[c.below(8)];
+    unsigned g = c.u8();
+    o.norm = (norm_t)(2 - (g % 3));       // zero byte -> INF_NORM
+    o.milu = (milu_t)((g >> 2) % 4);
+    o.rowperm = ((g >> 4) & 1) ? LargeDiag_MC64 : NOROWPERM;
+    return o;
+}
+
+inline std::string ilu_str(const IluOpts &o)
+{
+    return fmt("DropRule=0x%x DropTol=%g FillFactor=%g FillTol=%g Norm=%d MILU=%d RowPerm=%s", o.droprule, o.droptol, o.fillfactor, o.filltol, (int)o.norm, (int)o.milu, o.rowperm == LargeDiag_MC64 ? "MC64" : "NO");
+}
+
+inline void apply_ilu(const IluOpts &o, superlu_options_t &so)
+{
+    so.ILU_DropRule = o.droprule; so.ILU_DropTol = o.droptol; so.ILU_FillFactor = o.fillfactor; so.ILU_FillTol = o.filltol;
+    so.ILU_Norm = o.norm; so.ILU_MILU = o.milu; so.RowPerm = o.rowperm;
+}
+
 // --- concrete storage --------------------------------------------------------
 template <class T> inline T to_T(const Val &v);
 template <> inline float to_T<float>(const Val &v) { return (float)v.re; }
